@@ -35,6 +35,7 @@ fn main() {
         "diff" => cmd_diff(&args),
         "dump" => cmd_dump(&args),
         "procenum" => cmd_procenum(&args),
+        "stress-ids" => cmd_stress_ids(&args),
         "valenum" => {
             let what = args.get(2).map(|s| s.as_str()).unwrap_or("");
             let (n, bad): (u64, Vec<String>) = match what {
@@ -471,4 +472,47 @@ fn cmd_bthreads(args: &[String]) {
         Some(f) => std::fs::write(f, text).unwrap(),
         None => println!("{text}"),
     }
+}
+
+/// Sampling, not exhaustive (DESIGN.md L1): N OS threads spawn actors at the same instant, round after round;
+/// all ids must be distinct. Sound when it fires; silence proves nothing about atomicity.
+fn cmd_stress_ids(args: &[String]) {
+    use rsactor::{Actor, ActorRef};
+    struct Tiny;
+    impl Actor for Tiny {
+        type Args = ();
+        type Error = String;
+        async fn on_start(_: (), _: &ActorRef<Self>) -> Result<Self, String> {
+            Ok(Tiny)
+        }
+    }
+    let threads: usize = args.get(2).and_then(|s| s.parse().ok()).unwrap_or(8);
+    let rounds: usize = args.get(3).and_then(|s| s.parse().ok()).unwrap_or(1500);
+    let barrier = Arc::new(std::sync::Barrier::new(threads));
+    let mut hs = Vec::new();
+    for _ in 0..threads {
+        let b = barrier.clone();
+        hs.push(std::thread::spawn(move || {
+            let rt = tokio::runtime::Builder::new_current_thread().build().unwrap();
+            let mut ids = Vec::with_capacity(rounds);
+            rt.block_on(async {
+                for _ in 0..rounds {
+                    b.wait();
+                    let (r, jh) = rsactor::spawn::<Tiny>(());
+                    ids.push(r.identity().id);
+                    drop(r);
+                    let _ = jh.await;
+                }
+            });
+            ids
+        }));
+    }
+    let mut all: Vec<u64> = Vec::new();
+    for h in hs {
+        all.extend(h.join().unwrap());
+    }
+    let n = all.len();
+    all.sort_unstable();
+    let dups = all.windows(2).filter(|w| w[0] == w[1]).count();
+    println!("{}", serde_json::json!({"threads": threads, "rounds": rounds, "ids": n, "duplicates": dups}));
 }
